@@ -62,6 +62,14 @@ def corpus():
             dict(kind='H', cfg=inh, twin_only=True,
                  prog=[['add', 1, 3, {'a': 1, 'pages': 2}], ['commit'], ['del', 1, 3], ['flush'],
                        ['add', 0, 3, {'a': 2}], ['commit'], ['set', 0, 3, {'a': 4}], ['commit']]),
+            # a joined-table child loaded through its base class (child columns not loaded) and deleted in a LATER flush of
+            # a transaction that already had a versioned flush
+            dict(kind='H', cfg=inh,
+                 prog=[['add', 1, 1, {'a': 1, 'pages': 2}], ['commit'], ['add', 0, 2, {'a': 1}], ['flush'], ['forget'],
+                       ['delbase', 1, 1], ['commit'], ['add', 1, 1, {'a': 3, 'pages': 4}], ['commit']]),
+            dict(kind='H', cfg=inh,
+                 prog=[['add', 1, 1, {'a': 1, 'pages': 2}], ['add', 1, 2, {'a': 1, 'pages': 2}], ['commit'], ['forget'],
+                       ['delbase', 1, 1], ['flush'], ['delbase', 1, 2], ['commit']]),
             dict(kind='H', cfg=cfg, prog=[['add', 0, 1, {'a': 1}], ['add', 2, 1, {'a': 1}], ['commit'], ['rawlink', 1, 1], ['commit']]),
             dict(kind='H', cfg=cfg, prog=[['add', 0, 1, {'a': 1}], ['add', 2, 1, {'a': 1}], ['link', 1, 1], ['flush'], ['unlink', 1, 1], ['commit']]),
             dict(kind='H', cfg=cfg, prog=[['add', 0, 1, {'a': 1}], ['add', 2, 1, {'a': 1}], ['flush'], ['rawlink_inline', 1, 1], ['add', 0, 2, {'a': 1}], ['commit']]),
